@@ -69,7 +69,7 @@ def run(tier, seed):
     _, _, mm2 = validate(PID, st, "selftest")
     chk.cov["selftest"] = {"corrupted_events": n, "rejected": len(mm2), "ok": len(mm2) == n and n == 4}
     if not chk.cov["selftest"]["ok"]:
-        raise ToolError("self-test: corrupted loads were not all rejected")
+        chk.selftest_failed("corrupted loads were not all rejected")
     e = json.loads(open(first).readline())
     chk.sample({k: e[k] for k in ("enc", "target", "m_file", "m_emu", "desc", "opts", "outcome")})
     chk.cov["traces_validated_against_impl"] = chk.cov["events_validated"]
